@@ -4,7 +4,7 @@
 Writes /verif/seeded/<id>/detect.json. /repo itself is not touched."""
 import json, os, shutil, subprocess, sys, time
 sid = sys.argv[1]
-d = os.path.join("/verif/seeded", sid)
+d = os.path.join(os.environ.get("MUTDIR", "/verif/seeded"), sid)
 props = sys.argv[2:] or ["C%02d" % i for i in range(1, 21)]
 wt = "/tmp/mutrepo-" + sid
 bd = "/tmp/mutbuild-" + sid
